@@ -179,6 +179,15 @@ pub fn c03(r: &mut Rng, t: u32, n: usize) -> Vec<Value> {
                 let (xc, yc) = sign2(r, clampc2(xc), yc);
                 v.push(bin(t, op, dj(xc, p as u8), "dec", dj(yc, q as u8), "dec", 0, r.below(4)));
             }
+            8 => {
+                if let Some((a, k, mm)) = high_word_equals_divisor(r) {
+                    // k = 18 + q - p with p = 0
+                    let q = k - 18;
+                    if q > 18 { continue; }
+                    let (a, mm) = sign2(r, a, mm);
+                    v.push(bin(t, op, dj(a, 0), "dec", dj(mm, q as u8), "dec", 0, r.below(4)));
+                }
+            }
             7 => {
                 let (p, q) = (r.below(19) as u8, r.below(19) as u8);
                 let (pa, pb) = (pow25(r), pow25(r));
@@ -517,7 +526,15 @@ pub fn c09(r: &mut Rng, t: u32, n: usize) -> Vec<Value> {
             let f2 = f as u32 + r.below(19 - f as u64) as u32;
             match c.checked_mul(p10(f2 - f as u32)) { Some(c2) => (c2, f2 as u8), None => (c, f) }
         } else {
-            let (c, f) = match r.below(3) {
+            let (c, f) = match r.below(4) {
+                3 => {
+                    // q / 2^j stored without trailing zeros: odd coefficient q * 5^j at scale j (and nearby scales)
+                    let j = 10 + r.below(9) as u32;
+                    let lim = if r.bool() { 8 } else { 1 << 20 };
+                    let q = 1 + 2 * r.below(lim) as i128;
+                    let c = 5_i128.pow(j).saturating_mul(q).min(MAXC);
+                    (neg1!(r, c), (j as i64 + r.range(-1, 1)).clamp(0, 18) as u8)
+                }
                 0 => {
                     let mut c: i128 = 1 + 2 * r.below(500) as i128;
                     for _ in 0..r.below(100) { c = c.saturating_mul(2); }
@@ -554,7 +571,7 @@ pub fn c06(r: &mut Rng, t: u32, n: usize) -> Vec<Value> {
         "99999999999999999999999999999999999999",   // 10^38-1
     ];
     while v.len() < n {
-        let s: String = match r.below(10) {
+        let s: String = match r.below(12) {
             0 | 1 => {
                 let len = r.below(9);
                 (0..len).map(|_| *r.pick(&alphabet)).collect()
@@ -601,7 +618,7 @@ pub fn c06(r: &mut Rng, t: u32, n: usize) -> Vec<Value> {
                 if !s.contains('e') { s.push(if r.bool() { 'e' } else { 'E' }); match r.below(3) { 0 => s.push('+'), 1 => s.push('-'), _ => {} } for _ in 0..r.below(5) { { let b = if r.bool() { 10 } else { 2 }; s.push((b'0' + r.below(b) as u8) as char); } } }
                 s
             }
-            7 if r.bool() => {
+            10 | 11 => {
                 // digit runs of chunk-relevant lengths with ONE foreign byte at any position: bytes adjacent to '0'..'9' in
                 // ASCII ('/', ':'), bytes that look like digits in the low nibble ('@' 0x40, 'p' 0x70, 'P'), grammar characters
                 let l = *r.pick(&[7usize, 8, 9, 15, 16, 17, 24, 30]) + r.below(2) as usize;
@@ -888,6 +905,21 @@ pub fn c16(r: &mut Rng, t: u32, n: usize) -> Vec<Value> {
             6 => MAXC - r.below(10) as i128,
             _ => ((r.u128() >> (1 + r.below(126))) as i128).max(1),
         };
+        if r.below(8) == 0 {
+            // the dispatch boundary of the wide division: high word of the dividend exactly equal to the divisor
+            if r.bool() {
+                if let Some((a, k, mm)) = high_word_equals_divisor(r) {
+                    let a = neg1!(r, a);
+                    let op = if r.bool() { "i128_shifted_div_mod_floor" } else { "i128_shifted_div_rounded" };
+                    v.push(json!({"ev": "wide", "t": t, "op": op, "a": num(a), "b": num(0), "k": k, "m": num(mm), "mode": mode}));
+                }
+            } else {
+                let (a, b, mm) = high_word_equals_divisor_mul(r);
+                let (a, b) = sign2(r, a, b);
+                v.push(json!({"ev": "wide", "t": t, "op": "i256_div_mod_floor", "a": num(a), "b": num(b), "k": 0, "m": num(mm), "mode": mode}));
+            }
+            continue;
+        }
         if r.below(6) == 0 {
             // half-word patterns: every combination of {0, 1, 2^63, 2^64-1, random} in the four 64-bit halves of a and b
             // (carries between the partial products), divisors around 2^32 / 2^64
